@@ -71,21 +71,21 @@ fn op_kinds() -> Vec<(u32, AKind)> {
     ]
 }
 
-fn case_strategy(partial: bool) -> BoxedStrategy<Case> {
+fn case_strategy(partial: bool, max_cells: usize) -> BoxedStrategy<Case> {
     (
-        prop::collection::vec(sheet_spec(12, true), 1..=3),
+        prop::collection::vec(sheet_spec(max_cells, true), 1..=3),
         prop::collection::vec(aop(op_kinds()), 1..=40),
     )
         .prop_map(move |(sheets, ops)| Case { sheets, ops, partial })
         .boxed()
 }
 
-fn strat_clean(_t: Tier) -> BoxedStrategy<Case> {
-    case_strategy(false)
+fn strat_clean(t: Tier) -> BoxedStrategy<Case> {
+    case_strategy(false, t.pick(12, 24))
 }
 
-fn strat_partial(_t: Tier) -> BoxedStrategy<Case> {
-    case_strategy(true)
+fn strat_partial(t: Tier) -> BoxedStrategy<Case> {
+    case_strategy(true, t.pick(12, 24))
 }
 
 fn subs() -> Vec<Box<dyn DynSub>> {
@@ -597,6 +597,10 @@ fn check(case: &Case, obs: &mut Obs) -> Verdict {
                 format!("{} ; history: {}", pn.short(), ctxt(&trace)),
             );
         }
+        let clips = match &op {
+            COp::Remove { sheet, axis, p, n, .. } if case.partial => model.sheets[*sheet].partial_clips(*axis, *p, *n),
+            _ => Vec::new(),
+        };
         let (nt, labels) = apply_model(&mut model, &op);
         obs.nontrivial(nt);
         obs.class(format!("op:{}", kind));
@@ -620,6 +624,22 @@ fn check(case: &Case, obs: &mut Obs) -> Verdict {
                 key,
                 format!("after op #{} on sheet {}, sheet {} differs from the reference grid: {} ; history: {}", i, target, si, d.detail, ctxt(&trace)),
             );
+        }
+        // informational (not judged): did a partly overlapped range keep its surviving part?
+        if !clips.is_empty() {
+            let d = dump_sheet(book.get_sheet(&target).unwrap());
+            for (kind, rect) in &clips {
+                let found = match *kind {
+                    "merge" => d.merges.iter().any(|x| x.as_ref() == Ok(rect)),
+                    "cf" => d.cfs.iter().any(|c| c.1.iter().any(|x| x.as_ref() == Ok(rect))),
+                    _ => d.filter.as_ref().map(|x| x.as_ref() == Ok(rect)).unwrap_or(false),
+                };
+                obs.class(format!(
+                    "partly-overlapped-{}:{}",
+                    kind,
+                    if found { "surviving-part-kept" } else { "other-result" }
+                ));
+            }
         }
         // metamorphic: remove(p,n) after insert(p,n) restores the pre-insert projection
         if let (Some((snapshot, model0)), COp::Insert { sheet, axis, book_level, by_letter, p, n }) = (pre, &op) {
